@@ -78,7 +78,7 @@ func c05trim(p *Prog, r *Report) {
 					ok = false
 					detail = "the trimmed slice is not the pool"
 				}
-				base, isLen := isLenOf(sl.Low)
+				base, isLen := isLenOf(resolveLocalValue(sl.Low))
 				// the moment the count was fixed: the load of the pool whose length is taken (the len
 				// itself may be evaluated later, on that captured slice value)
 				var lenIn ssa.Instruction
@@ -104,13 +104,18 @@ func c05trim(p *Prog, r *Report) {
 						ok = false
 						detail = "the trim count is captured after the insertion (items added by the commit callback during insertion would be dropped)"
 					}
-					// nothing between the capture and the hand-over can write the pool
+					// nothing between the capture and the hand-over (in either order) can write the pool
+					first, second := lenIn, ssa.Instruction(ne)
 					if ok && !dominates(lenIn, ne) {
-						ok = false
-						detail = "the pool is handed to NewEvent before its length is captured"
+						if dominates(ne, lenIn) {
+							first, second = ne, lenIn
+						} else {
+							ok = false
+							detail = "the pool is handed to NewEvent on a path on which its length was not captured"
+						}
 					}
 					if ok {
-						if wr := p.poolWrittenBetween(lenIn, ne, f); wr != "" {
+						if wr := p.poolWrittenBetween(first, second, f); wr != "" {
 							ok = false
 							detail = "the pool can be written between len(pool) and the hand-over to NewEvent: " + wr
 						}
